@@ -49,12 +49,11 @@ def run_one(pid, x, tier, demo=True):
             r = sh("PYTHONPATH=%s timeout 600 /venv/bin/python %s" % (wt, os.path.join(d, "demo.py")), cwd=wt)
             res["demo_broken"] = "PROPERTY BROKEN" in r.stdout
             res["demo_tail"] = r.stdout.strip().splitlines()[-1][:300] if r.stdout.strip() else ""
-        ev = os.path.join(VERIF, "evidence", pid + ".json")
-        bak = ev + ".seedbak"
-        if os.path.exists(ev):
-            shutil.copy(ev, bak)
+        # out/ and evidence/ of the mutant runs live in scratch space: nothing of the real tree's results is touched
+        scratch_env = "VERIF_OUT=%s VERIF_EVDIR=%s" % (os.path.join(SCRATCH, "out"), os.path.join(SCRATCH, "evidence"))
+        os.makedirs(os.path.join(SCRATCH, "evidence"), exist_ok=True)
         t0 = time.time()
-        r = sh("VERIF_REPO=%s timeout 7200 %s/check %s --tier %s" % (wt, VERIF, pid, tier), cwd=VERIF)
+        r = sh("%s VERIF_REPO=%s timeout 7200 %s/check %s --tier %s" % (scratch_env, wt, VERIF, pid, tier), cwd=VERIF)
         res["wall"] = round(time.time() - t0, 1)
         res["exit"] = r.returncode
         lines = r.stdout.splitlines()
@@ -67,21 +66,13 @@ def run_one(pid, x, tier, demo=True):
         also = os.path.join(d, "also.txt")
         if not res["detected"] and os.path.exists(also):
             for other in open(also).read().split():
-                ev2 = os.path.join(VERIF, "evidence", other + ".json")
-                bak2 = ev2 + ".seedbak"
-                if os.path.exists(ev2):
-                    shutil.copy(ev2, bak2)
-                r2 = sh("VERIF_REPO=%s timeout 7200 %s/check %s --tier %s" % (wt, VERIF, other, tier), cwd=VERIF)
-                if os.path.exists(bak2):
-                    shutil.move(bak2, ev2)
+                r2 = sh("%s VERIF_REPO=%s timeout 7200 %s/check %s --tier %s" % (scratch_env, wt, VERIF, other, tier), cwd=VERIF)
                 nv = sum(1 for ln in r2.stdout.splitlines() if ln.startswith("VIOLATION"))
                 res.setdefault("other", {})[other] = {"exit": r2.returncode, "violations": nv}
                 if r2.returncode == 1 and nv > 0:
                     res["detected"] = True
                     res["detected_by"] = other
                     break
-        if os.path.exists(bak):
-            shutil.move(bak, ev)
     finally:
         sh("git -C %s worktree remove --force %s" % (REPO, wt))
         shutil.rmtree(wt, ignore_errors=True)
